@@ -74,8 +74,9 @@ CLAIMED["C06"] = ("Proof over assumed modular and group arithmetic (ghost intege
 CLAIMED["C12"] = ("Proof over a ghost random stream (the reader has delivered rndpos bytes; io.ReadFull either fills the buffer with the next bytes or fails) and the assumed bigmod arithmetic: "
  "sm2 randomPoint and sm9 randomScalar return a scalar whose value is exactly the last 32-byte big-endian block read (no bit masked, reduced or reused: any write to the buffer between the read and "
  "SetBytes breaks the obligation), accepted only if 0 < k < n (and k != n-1 where requested), each rejected candidate costing exactly one more block, an error from the source is returned with no point; "
- "ecdh GenerateKey returns the last block with byte 1 XOR 0x42 and NewPrivateKey refuses 0 and values >= n-1 and keeps a private copy. "
- "Not covered: sm9 master-key generation loops, sm2 legacy randFieldElement (masks excess bits for curves whose order is not a whole number of bytes), key exchange and WrapKey call sites, "
+ "ecdh GenerateKey returns the last block with byte 1 XOR 0x42 and NewPrivateKey refuses 0 and values >= n-1 and keeps a private copy; the SM9 master key constructors (the acceptance test of the master key samplers) compare against the group order minus one "
+ "(bn256.OrderMinus1Bytes), so the accepted range is [1, N-2]. "
+ "Not covered: the loops of the sm9 master-key generators themselves, sm2 legacy randFieldElement (masks excess bits for curves whose order is not a whole number of bytes), key exchange and WrapKey call sites, "
  "MaybeReadByte's own behaviour (assumed to consume 0 or 1 byte).",
  "Trusted: io.ReadFull, randutil.MaybeReadByte, bigmod Nat/Modulus contracts, sm2ec ScalarBaseMult, ecdh isLess, ConstantTimeAllZero.",
  "DESIGN.md §4 C12")
@@ -176,7 +177,8 @@ CLAIMED["C15"] = ("Partial proof of the certificate signature gates: CheckSignat
 
 CLAIMED["C02"] = ("Partial proof, of the Go glue around the SM4 block function only: NewCipher (public and internal) returns an error exactly for keys that are not 16 bytes long and otherwise a 16-byte block cipher; "
  "the block-batch entry points EncryptBlocks/DecryptBlocks panic exactly on short buffers or inexact overlap, call the assembly routine only with slices for which its length-dependent batch size (one batch, or two when src is exactly "
- "two batches long - read off the assembly and assumed) stays inside both buffers, and write only dst[0..n] for that n (found and fixed D29: a one-batch dst was overrun). "
+ "two batches long - read off the assembly and assumed) stays inside both buffers, and write only dst[0..n] for that n (found and fixed D29: a one-batch dst was overrun); on every tier (4-block and 8-block batches) they hand the assembly exactly the first two batches of dst and src "
+ "when the caller gave exactly two and dst has room, and exactly the first batch otherwise. "
  "Not decided: that the 32 rounds equal GB/T 32907 (S-box tables, rotations and the XOR network need bit-vector reasoning; the verifier's bit-vector mode is a skeleton), the key schedule, agreement of the AES-NI/AVX2/AVX/SSE/pure-Go tiers, "
  "decryption inverting encryption - i.e. the cryptographic content of the property.",
  "Trusted: encryptBlocksAsm (assumed contract), newCipher dispatch, alias.InexactOverlap.",
